@@ -850,6 +850,14 @@ class C10Executor(Executor):
     _role_stack = ()
     _loop_nodes = ()
 
+    def b_hasattr(self, st, args, kwargs, node):
+        """hasattr(x, "name") for an abstract object of a sort the pack models WITH a method of that name: True (the model says what the
+        object can do); anything else stays an unknown Bool"""
+        if len(args) == 2 and isinstance(args[0], VExt) and isinstance(args[1], VStr) and args[1].const() is not None \
+                and (args[0].sort, args[1].const()) in self.reg.method_models:
+            return [(st, VBool(True))]
+        return super().b_hasattr(st, args, kwargs, node)
+
     def symbolic_for(self, s, st, it):
         spec = None
         if isinstance(it, VExt) and it.sort == "TarFile":
@@ -3864,24 +3872,81 @@ def dispatch_contracts():
     def ph_arch(c):
         return c.entry.obj(c.args["self"].ref).data["_archive_file"].t
 
+    def ph_frame(ex, st, ctx):
+        """at a call site (SevenZipReader.__init__): the call is recorded with the archive file it reads; the fields the parsers fill are unknown"""
+        d = st.obj(ctx.args["self"].ref).data
+        st.ghost["subparsers"] = st.ghost.get("subparsers", ()) + (("_parse_header", d["_archive_file"].t, dict(d)),)
+        w = st.wobj(ctx.args["self"].ref)
+        w.data = {k: (VUnk(k) if k in SUB_FIELDS or k in ("_stream", "_header_offset") else v) for k, v in d.items()}
+
     def ph_post(c):
         hs, _bad = spec_start_header(ph_arch(c))
         evs = new_subs(c)
         d = c.st.obj(c.args["self"].ref).data
         ho = d.get("_header_offset")
+        af = d.get("_archive_file")
         return z3.And(z3.BoolVal(len(evs) == 1 and evs[0][0] == "_parse_end_header"),
+                      af.t == ph_arch(c) if isinstance(af, VExt) else z3.BoolVal(False),          # still reads the same archive file
                       *( [evs[0][1] == hs, evs[0][2] == 0] if len(evs) == 1 else []),
                       ops.eq_term(ho, VInt(32)) if isinstance(ho, VInt) else z3.BoolVal(False))
 
     out.append(FnContract(
         target=f"{RD}._parse_header",
-        params=[("self", p_obj("SevenZipReader", {"_archive_file": p_ext("Stream7z"), "_stream": p_ext("Stream7z"), "_header_offset": p_const(0)}))],
-        requires=lambda c: SLEN(ph_arch(c)) >= 0, modifies=("self",),
+        params=[("self", p_obj("SevenZipReader", {"_archive_file": p_ext("Stream7z"), "_stream": p_ext("Stream7z"), "_header_offset": p_unk()}))],
+        requires=lambda c: SLEN(ph_arch(c)) >= 0, modifies=("self",), frame=ph_frame,
         ensures=[("end-header-parsed-from-a-stream-over-the-next-header-bytes-and-header-offset-32", internal(ph_post)),
                  ("returns-only-if-signature-version-and-both-CRCs-match", internal(lambda c: z3.Not(spec_start_header(ph_arch(c))[1])))],
         raises=[Raises(BAD, sub=True, when=lambda c: spec_start_header(ph_arch(c))[1],
                        label="bad signature / version / CRC, truncated file, or the end header refused")],
         note="SignatureHeader of 7zFormat.txt over any archive file; zlib.crc32 uninterpreted; pack positions are relative to byte 32"))
+
+    # ---- SevenZipReader.__init__: empty state, then the header of THIS file parsed
+    def ri_post(c):
+        evs = new_subs(c)
+        if len(evs) != 1 or evs[0][0] != "_parse_header":
+            return z3.BoolVal(False)
+        _n, arch, d = evs[0]
+        empties = all(isinstance(d.get(k), VRef) and c.ex.concrete_items(c.st, d[k]) == [] for k in SUB_FIELDS if k != "_folder_to_files")
+        f2f = d.get("_folder_to_files")
+        empty_map = isinstance(f2f, (VDictC, VRef)) and (f2f.items == [] if isinstance(f2f, VDictC) else c.st.obj(f2f.ref).data in ({}, []))
+        return z3.And(arch == c.args["file"].t, z3.BoolVal(bool(empties)), z3.BoolVal(bool(empty_map)),
+                      z3.BoolVal(isinstance(d.get("_archive_file"), VExt) and isinstance(d.get("_stream"), VExt)), d["_stream"].t == arch,
+                      d["_archive_file"].t == c.args["file"].t)
+
+    def ri_frame(ex, st, ctx):
+        """at a call site (SevenZipFile.__enter__): a reader on `file` whose header has been parsed; what the parsers filled in is unknown"""
+        f = ctx.args["file"]
+        st.ghost["subparsers"] = st.ghost.get("subparsers", ()) + (("reader-init", f.t, None),)
+        w = st.wobj(ctx.args["self"].ref)
+        w.data = dict({k: VUnk(k) for k in SUB_FIELDS + ("_stream", "_header_offset")}, _archive_file=f)
+
+    out.append(FnContract(
+        target=f"{RD}.__init__", params=[("self", p_obj("SevenZipReader", {})), ("file", p_ext("Stream7z"))],
+        requires=lambda c: SLEN(c.args["file"].t) >= 0, modifies=("self",), frame=ri_frame,
+        ensures=[("state-empty-then-the-header-of-this-file-parsed-once", internal(ri_post))],
+        raises=[Raises(BAD, sub=True, when=lambda c: spec_start_header(c.args["file"].t)[1], label="the header is refused")],
+        note="file objects are streams with read() (the hasattr guard is for foreign objects: outside this contract)"))
+
+    # ---- SevenZipFile.__enter__: the reader is built on the facade's own file (so `source_file=self._file` and the reader's own
+    # `_archive_file` name the same bytes: see facade_contracts)
+    def en_post(c):
+        evs = new_subs(c)
+        me = c.args["self"]
+        rd = c.st.obj(me.ref).data.get("_reader")
+        fl = c.entry.obj(me.ref).data["_file"]
+        if len(evs) != 1 or evs[0][0] != "reader-init" or not isinstance(rd, VRef) or c.st.obj(rd.ref).cls != "SevenZipReader":
+            return z3.BoolVal(False)
+        af = c.st.obj(rd.ref).data.get("_archive_file")
+        return z3.And(z3.BoolVal(isinstance(c.result, VRef) and c.result.ref == me.ref), evs[0][1] == fl.t,
+                      af.t == fl.t if isinstance(af, VExt) else z3.BoolVal(False))
+
+    out.append(FnContract(
+        target=f"{SEVEN}::SevenZipFile.__enter__",
+        params=[("self", p_obj("SevenZipFile", {"_file": p_ext("Stream7z"), "_password": p_unk(), "_reader": p_const(None)}))],
+        requires=lambda c: SLEN(c.entry.obj(c.args["self"].ref).data["_file"].t) >= 0, modifies=("self",),
+        ensures=[("returns-itself-with-a-reader-built-on-its-own-file", internal(en_post))],
+        raises=[Raises(BAD, sub=True, when=lambda c: spec_start_header(c.entry.obj(c.args["self"].ref).data["_file"].t)[1], label="the header is refused")],
+        note="the reader is constructed under the contract of SevenZipReader.__init__ (verified above)"))
     out.extend(facade_contracts())
     return out
 
